@@ -340,6 +340,32 @@ def run(ctx):
         for node in grammar.iter_ir(f.ir) if f.ir else []:
             if node['op'] == 'closure':
                 bodies.append((node['fn'], f))
+    # parse results are never modified: outside the lexeme joins (G2) and the helpers of utils.rs, a parser function neither binds an output
+    # mutably / by `ref mut` nor calls a shrinking or reordering method — a node edited after it was parsed (trivia `.clear()`ed, an element
+    # removed) no longer covers what the parser consumed, so bytes of the text end up in no leaf
+    MUT_M = ('clear', 'truncate', 'retain', 'pop', 'remove', 'drain', 'swap', 'reverse', 'sort', 'sort_by', 'dedup', 'split_off', 'swap_remove', 'take')
+    n_mut = 0
+    for f_ in g.parsers():
+        if getattr(f_, 'lexeme', False) or not f_.item.get('body'):
+            continue
+        n_mut += 1
+
+        def _mut_pat(p_):
+            if not isinstance(p_, dict):
+                return False
+            if p_.get('k') == 'ident' and (p_.get('mut') or (p_.get('ref') and p_.get('mut'))):
+                return True
+            return any(_mut_pat(v_) if isinstance(v_, dict) else any(_mut_pat(x_) for x_ in v_ if isinstance(x_, dict)) if isinstance(v_, list) else False for v_ in p_.values())
+        for n_ in sx.walk(f_.item['body']):
+            if n_.get('k') == 'let' and 'pat' in n_ and n_['pat'].get('k') == 'tuple' and 'init' in n_ and n_['init'].get('k') in ('try', 'field') and _mut_pat(n_['pat']):
+                res.fail('%s:%s:parse-result-mutable' % (g.crate, f_.name), '%s/%s:%s' % (g.crate, f_.file, n_.get('l') or f_.line),
+                         '%s binds a parse result mutably (`%s`): a node is what its parser built from the text it consumed; editing it afterwards leaves consumed bytes '
+                         'outside every leaf (or invents leaves)' % (f_.name, sx.render(n_['pat'])[:50]))
+            if n_.get('k') == 'mcall' and n_['m'] in MUT_M and not n_['args'][1:] and n_['recv'].get('k') in ('path', 'field', 'index'):
+                res.fail('%s:%s:parse-result-edited:%s' % (g.crate, f_.name, n_['m']), '%s/%s:%s' % (g.crate, f_.file, n_.get('l') or f_.line),
+                         '%s calls `%s`: part of a parsed node is removed or reordered after parsing, so the tree no longer covers exactly the text that was consumed' %
+                         (f_.name, sx.render(n_)[:50]))
+    res.counts['functions_scanned_for_result_mutation'] = n_mut
     for fn, owner in bodies:
         where = '%s/%s:%d' % (g.crate, fn.file, fn.line)
         if fn.kind == 'helper' and fn.name == 'list':
